@@ -40,7 +40,18 @@ fn inst_strategy() -> BS<Inst> {
         (1, (0usize..9, near_offset()).prop_map(|(s, off)| greg_offset_ns(s) + off).boxed()),
         (1, near_offset()),
     ]);
-    (g, 0usize..9).prop_map(|(g, s)| Inst { g, s, full: true }).boxed()
+    let free = (g, 0usize..9).prop_map(|(g, s)| Inst { g, s, full: true }).boxed();
+    // instants that read as whole seconds (or whole milliseconds) in ANOTHER scale: the views print them without a
+    // fraction while the epoch's own reading has one (e.g. a TAI reading ending in .816 is a whole second of TT)
+    let round_elsewhere = (day_0001_9999(), 0i128..86_400, prop_oneof![3 => Just(0i128), 1 => (0i128..1000).prop_map(|ms| ms * 1_000_000)], prop::sample::select(vec![S_TAI, S_TT, S_UTC, S_GPST, S_BDT]), 0usize..9)
+        .prop_map(|(day, sec, frac, axis, s)| {
+            let on_axis = day as i128 * NS_D + sec * NS_S + frac - greg_offset_ns(axis);
+            let tai = to_tai(axis, on_axis);
+            let cnt = from_tai(s, tai).unwrap_or(tai);
+            Inst { g: cnt + greg_offset_ns(s), s, full: true }
+        })
+        .boxed();
+    wunion(vec![(8, free), (1, round_elsewhere)])
 }
 
 fn exact(s: usize) -> bool {
